@@ -2,6 +2,7 @@
 import SPProofs.Card.Bits
 
 namespace SPModel
+open Builder Card
 namespace Builder
 
 /-- Numeric value of an optional carry literal. -/
